@@ -387,6 +387,136 @@ func TestC09_RoundTrip(t *testing.T) {
 	})
 }
 
+// ---- streams: several packets through ONE decoder, decoded later ------------------------------------------------------
+//
+// The client and the server hand the decode closure of a completed packet to another goroutine, so packet N is routinely
+// decoded after the frames of packet N+1.. have been fed to the same Parser.
+
+const c09CheckStream = "c09-stream"
+
+type c09StreamCase struct {
+	Packets []c09Case `json:"packets"`
+	Order   []int     `json:"order"` // order in which the completed packets are decoded
+}
+
+func evalC09Stream(sc c09StreamCase) *Failure {
+	fail := func(clause, detail string) *Failure {
+		return &Failure{Property: "C09", Check: c09CheckStream, Clause: clause, Class: fmt.Sprintf("packets=%d", len(sc.Packets)), Detail: detail, Case: sc}
+	}
+	p := newSIOParser()
+	type done struct {
+		decode parser.Decode
+		event  string
+		header *parser.PacketHeader
+	}
+	var completed []done
+	for pi, c := range sc.Packets {
+		hdr := &parser.PacketHeader{Type: parser.PacketType(c.Type), Namespace: c.Nsp}
+		if c.HasID {
+			id := c.ID
+			hdr.ID = &id
+		}
+		args := make([]any, 0, len(c.Args)+1)
+		if c.Type == 2 {
+			args = append(args, c.Event)
+		}
+		for _, a := range c.Args {
+			args = append(args, a.value())
+		}
+		frames, err := newSIOParser().Encode(hdr, &args)
+		if err != nil {
+			return fail("encode-ok", fmt.Sprintf("packet %d: %v", pi, err))
+		}
+		before := len(completed)
+		for fi, fr := range frames {
+			var aerr error
+			if msg, _ := catchPanic(func() {
+				aerr = p.Add(fr, func(h *parser.PacketHeader, ev string, d parser.Decode) { completed = append(completed, done{d, ev, h}) })
+			}); msg != "" {
+				return fail("no-panic", fmt.Sprintf("Add(packet %d frame %d) panicked: %s", pi, fi, msg))
+			}
+			if aerr != nil {
+				return fail("round-trip-accept", fmt.Sprintf("packet %d frame %d rejected: %v", pi, fi, aerr))
+			}
+		}
+		if len(completed) != before+1 {
+			return fail("round-trip-finish", fmt.Sprintf("feeding packet %d completed %d packets", pi, len(completed)-before))
+		}
+	}
+	for _, pi := range sc.Order {
+		c, d := sc.Packets[pi], completed[pi]
+		if c.Type == 2 && d.event != c.Event {
+			return fail("round-trip-event-name", fmt.Sprintf("packet %d: event %q, want %q", pi, d.event, c.Event))
+		}
+		types := make([]reflect.Type, len(c.Args))
+		for i, a := range c.Args {
+			types[i] = shapeByName(a.Shape).Type
+		}
+		var values []reflect.Value
+		var derr error
+		if msg, _ := catchPanic(func() { values, derr = d.decode(types...) }); msg != "" {
+			return fail("no-panic", fmt.Sprintf("decode of packet %d panicked: %s", pi, msg))
+		}
+		if derr != nil {
+			return fail("round-trip-decode", fmt.Sprintf("packet %d decoded after later packets were fed: %v", pi, derr))
+		}
+		if len(values) != len(types) {
+			return fail("round-trip-decode", fmt.Sprintf("packet %d: %d values for %d types", pi, len(values), len(types)))
+		}
+		for i, v := range values {
+			got := v
+			if types[i].Kind() != reflect.Ptr && v.Kind() == reflect.Ptr {
+				got = v.Elem()
+			}
+			if df := treeDiff(c.Args[i].Tree, valueTree(got), fmt.Sprintf("$packet%d.arg%d", pi, i)); df != "" {
+				return fail("round-trip-value", "a packet decoded after later packets went through the same decoder differs from what was encoded at "+df)
+			}
+		}
+	}
+	return nil
+}
+
+func TestC09_Stream(t *testing.T) {
+	ev := NewEv(t, "C09", c09CheckStream, "rapid: 2..5 event/ack packets (same generator) fed frame by frame through ONE Parser, their decode closures called afterwards in a drawn order "+
+		"(as the client/server do on other goroutines); oracle: every packet decodes to what was encoded; non-trivial = >= 2 binary packets in the stream")
+	rapidGuard(t, "C09", c09CheckStream)
+	runRapid(t, c09CheckStream, tierN(6000, 300000), func(t *rapid.T) {
+		n := rapid.IntRange(2, 5).Draw(t, "packets")
+		sc := c09StreamCase{}
+		bin := 0
+		for i := 0; i < n; i++ {
+			c := genC09Case(t)
+			if c.Type != 2 && c.Type != 3 {
+				c.Type, c.Event, c.Args = 2, "e", nil
+			}
+			sc.Packets = append(sc.Packets, c)
+			for _, tr := range c09Trees(c) {
+				if tr.CountBin() > 0 {
+					bin++
+					break
+				}
+			}
+		}
+		sc.Order = rapid.Permutation(seq(n)).Draw(t, "order")
+		ev.Case(sc, bin >= 2, fmt.Sprintf("binary-packets=%d", min(bin, 3)))
+		if bin >= 2 {
+			ev.Sample(fmt.Sprint(n), sampleOf(sc))
+		}
+		if f := evalC09Stream(sc); f != nil {
+			FailRapid(t, *f)
+		}
+	})
+}
+
+func seq(n int) []int {
+	s := make([]int, n)
+	for i := range s {
+		s[i] = i
+	}
+	return s
+}
+
 func init() {
 	registerReplay(c09Check, func(raw json.RawMessage) *Failure { return evalC09(decodeCase[c09Case](raw)) })
+	registerReplay(c09CheckStream, func(raw json.RawMessage) *Failure { return evalC09Stream(decodeCase[c09StreamCase](raw)) })
 }
